@@ -1,6 +1,31 @@
-//! polyz operations (stub; filled in by the area owner).
+//! C07: factorisation over Z (src/poly_z/mod.rs).
+//! `polyz_factorize f seed script` installs the scripted generator and answers
+//! `[ok [content [[factor e]...]] consumed-bytes]` or `[panic class consumed-bytes]`.
+use crate::ops::poly::{tzp, zp};
 use crate::term::*;
+use rust_number_theory::poly_z;
+use rust_number_theory::verif_hooks;
+use std::panic::{catch_unwind, AssertUnwindSafe};
 
-pub fn dispatch(_op: &str, _a: &[Term]) -> Option<Term> {
-    None
+/// Runs `f` with the scripted generator installed; the bytes it consumed are part of the answer.
+fn with_rng(seed: &Term, script: &Term, f: impl FnOnce() -> Term) -> Term {
+    verif_hooks::install(seed.u64(), script.bytes());
+    match catch_unwind(AssertUnwindSafe(f)) {
+        Ok(t) => tl(vec![tid("ok"), t, tbytes(&verif_hooks::take_log())]),
+        Err(_) => {
+            let msg = crate::LAST_PANIC.with(|p| p.borrow().clone());
+            tl(vec![tid("panic"), tid(crate::classify(&msg)), tbytes(&verif_hooks::take_log())])
+        }
+    }
+}
+
+pub fn dispatch(op: &str, a: &[Term]) -> Option<Term> {
+    Some(match op {
+        // polyz_factorize f seed script
+        "polyz_factorize" => with_rng(&a[1], &a[2], || {
+            let (c, fs) = poly_z::factorize(&zp(&a[0]));
+            tl(vec![tb(&c), tl(fs.iter().map(|(g, e)| tl(vec![tzp(g), ti(*e as u64)])).collect())])
+        }),
+        _ => return None,
+    })
 }
